@@ -220,7 +220,7 @@ def minimise(prop, scn, sig, budget_s=25.0, max_runs=400):
         cand["world"]["knobs"].pop("recv_size")
         if ok(cand):
             cur = cand
-    for k in list((cur["world"].get("client_kwargs") or {}).keys()):
+    for k in list((cur["world"].get("client_kwargs") or {}).keys()) if getattr(prop, "minimise_kwargs", True) else ():
         cand = copy.deepcopy(cur)
         del cand["world"]["client_kwargs"][k]
         if ok(cand):
